@@ -68,6 +68,14 @@ def run(ctx):
             o3, m3 = outcome(kidx.load_payload_module, key, v, et)
             if o2 != "ok" or c2 is not c or o3 != "ok" or m3.__name__ != modname:
                 fails.append({"what": "lookup by API key does not return the same class/module", "module": modname})
+            # the twin lookups of the index resolve through the same (key, version) — for the class
+            twin = kidx.load_response_from_request if kind == "request" else kidx.load_request_from_response
+            other = kidx.load_response_schema if kind == "request" else kidx.load_request_schema
+            o4, c4 = outcome(twin, c)
+            o5, c5 = outcome(other, key, v)
+            if o4 != "ok" or o5 != "ok" or c4 is not c5:
+                fails.append({"what": "request/response twin lookup does not resolve to the class the index has for "
+                                      "that key and version", "module": modname, "python": o4})
             lines.append(f"idx_payload {key} {v} {kind}")
             meta.append(("payload", (key, v, kind), f"ok {key_of_cls.get(c, -1)}"))
     # every index entry points at a walked module
